@@ -462,7 +462,15 @@ func VerifC08Corrupt() {
 	s := verifNewStorer(int64(n), 0)
 	s.SetRunId("r1")
 	chunk := verifBytes("seg", n+1) // one byte more than the limit: the first segment is closed by rotation... at n+1 bytes
-	w, err := s.GetAofWritter(&verifSrc{chunks: [][]byte{chunk, verifBytes("next", 1)}}, base)
+	// the altered segment is followed by a newer one, or it is itself the newest the restarted process finds
+	// (clean stop, or death right after the rotation)
+	chunks := [][]byte{chunk}
+	if verifChoose("newerSegment", 2) == 1 {
+		chunks = append(chunks, verifBytes("next", 1))
+	} else {
+		verifCover(true, "c08.corrupt.newest-segment")
+	}
+	w, err := s.GetAofWritter(&verifSrc{chunks: chunks}, base)
 	verifAssert(err == nil, "C08.new-aof-writer")
 	w.Start()
 	w.Wait(context.Background())
